@@ -70,7 +70,7 @@ impl<'s> G<'s> {
     fn f_ord(&mut self, order: Order, n_comm: u8, n: u8) -> u8 {
         match order {
             Order::Seq => self.f(n),
-            Order::Bag => self.f(n_comm),
+            _ => self.f(n_comm),
         }
     }
 
@@ -110,7 +110,7 @@ impl<'s> G<'s> {
         match self.sim.weighted("stateless", &[5, 4, 3, 3, 2, 2, 1]) {
             0 => {
                 let f = self.f(cl::N_MAP);
-                self.unary(Op::Map { f }, o, o.order, o.single)
+                self.unary(Op::Map { f }, o, o.order.mapped(), o.single)
             }
             1 => {
                 let f = self.f(cl::N_FILTER);
@@ -118,15 +118,15 @@ impl<'s> G<'s> {
             }
             2 => {
                 let f = self.f(cl::N_FILTER_MAP);
-                self.unary(Op::FilterMap { f }, o, o.order, o.single)
+                self.unary(Op::FilterMap { f }, o, o.order.mapped(), o.single)
             }
             3 => {
                 let f = self.f(cl::N_FLAT_MAP);
-                self.unary(Op::FlatMap { f }, o, o.order, false)
+                self.unary(Op::FlatMap { f }, o, o.order.mapped(), false)
             }
             4 => {
                 let f = self.f(cl::N_FLAT_MAP);
-                self.unary(Op::Flatten { f }, o, o.order, false)
+                self.unary(Op::Flatten { f }, o, o.order.mapped(), false)
             }
             5 => {
                 let id = self.n_inspect;
@@ -164,11 +164,11 @@ impl<'s> G<'s> {
                 let p = pers(self.sim);
                 self.unary(Op::Unique { p }, o, o.order, o.single)
             }
-            2 => self.unary(Op::MultisetDelta, o, o.order, o.single),
+            2 => self.unary(Op::MultisetDelta, o, o.order.mapped(), o.single),
             3 => self.unary(Op::Sort, o, Order::Seq, o.single),
             4 => {
                 let f = self.f(2);
-                self.unary(Op::SortByKey { f }, o, if o.single { Order::Seq } else { Order::Bag }, o.single)
+                self.unary(Op::SortByKey { f }, o, if o.single { Order::Seq } else { Order::KeySorted(f) }, o.single)
             }
             5 => {
                 let p = pers(self.sim);
@@ -263,16 +263,16 @@ impl<'s> G<'s> {
             }
             7 => {
                 let (pp, pn) = (pers(self.sim), pers(self.sim));
-                (Op::AntiJoin { pp, pn }, if pp == Pers::Tick { a.order } else { Order::Bag }, a.single && pp == Pers::Tick)
+                (Op::AntiJoin { pp, pn }, if pp == Pers::Tick { a.order.mapped() } else { Order::Bag }, a.single && pp == Pers::Tick)
             }
             8 => {
                 let (pp, pn) = (pers(self.sim), pers(self.sim));
-                (Op::Difference { pp, pn }, if pp == Pers::Tick { a.order } else { Order::Bag }, a.single && pp == Pers::Tick)
+                (Op::Difference { pp, pn }, if pp == Pers::Tick { a.order.mapped() } else { Order::Bag }, a.single && pp == Pers::Tick)
             }
             9 => (Op::Zip { f: self.f(cl::N_PAIR) }, Order::Seq, a.single || b.single),
             10 => (Op::ZipLongest { f: self.f(cl::N_PAIR) }, Order::Seq, a.single && b.single),
-            11 => (Op::CrossSingleton { f: self.f(cl::N_PAIR) }, a.order, a.single),
-            _ => (Op::DeferSignal, a.order, false),
+            11 => (Op::CrossSingleton { f: self.f(cl::N_PAIR) }, a.order.mapped(), a.single),
+            _ => (Op::DeferSignal, a.order.mapped(), false),
         };
         let n = self.push(op, ins);
         self.add_open(n, 0, order, single);
@@ -307,7 +307,7 @@ impl<'s> G<'s> {
                 let f = self.f(cl::N_MAP);
                 let t = self.push(Op::Unzip { f }, vec![o.src]);
                 for p in 0..2 {
-                    self.add_open(t, p, o.order, o.single);
+                    self.add_open(t, p, o.order.mapped(), o.single);
                 }
             }
         }
@@ -374,7 +374,7 @@ impl<'s> G<'s> {
         match self.sim.weighted("stateless2", &[5, 4, 3, 2, 1]) {
             0 => {
                 let f = self.f(cl::N_MAP);
-                self.node_on(Op::Map { f }, o, o.order, o.single)
+                self.node_on(Op::Map { f }, o, o.order.mapped(), o.single)
             }
             1 => {
                 let f = self.f(cl::N_FILTER);
@@ -382,11 +382,11 @@ impl<'s> G<'s> {
             }
             2 => {
                 let f = self.f(cl::N_FILTER_MAP);
-                self.node_on(Op::FilterMap { f }, o, o.order, o.single)
+                self.node_on(Op::FilterMap { f }, o, o.order.mapped(), o.single)
             }
             3 => {
                 let f = self.f(cl::N_FLAT_MAP);
-                self.node_on(Op::FlatMap { f }, o, o.order, false)
+                self.node_on(Op::FlatMap { f }, o, o.order.mapped(), false)
             }
             _ => self.node_on(Op::Identity, o, o.order, o.single),
         }
